@@ -173,6 +173,9 @@ pub enum Step {
     Connect { client: usize },
     Authorize { client: usize },
     ServerRestart,
+    /// stop the server (clients are disconnected first); world operations may follow while it is stopped
+    ServerStop,
+    ServerStart,
     JunkAck { client: usize, bytes: Vec<u8> },
 }
 
